@@ -1,4 +1,4 @@
-import FiberModel.C09.RoundTrip
+import FiberModel.C09.MediaLemmas
 /-
 C09 — property theorems (only). Helper lemmas: SortLemmas, SelectLemmas, ParseLemmas.
 
@@ -146,6 +146,44 @@ theorem accepts_token_eq_spec_partial (tab : Bytes → Option Qual) (mime : Byte
     getOffer tab acceptsOffer (render es) offers = expected mime .token es offers := by
   rw [getOffer_eq_spec_partial tab acceptsOffer es offers hwf hk1 hk2 (fun o _ ps ho => acceptsOffer_empty o ps ho)]
   rfl
+
+theorem firstAcceptable_congr (acc1 acc2 : SRange → Bytes → Bool) (offers : List Bytes)
+    (h : ∀ r o, o ∈ offers → o ≠ [] → acc1 r o = acc2 r o) (r : SRange) :
+    firstAcceptable acc1 r offers = firstAcceptable acc2 r offers := by
+  unfold firstAcceptable
+  induction offers with
+  | nil => rfl
+  | cons o os ih =>
+    have hrec := ih (fun r o ho hne => h r o (by simp [ho]) hne)
+    by_cases hoe : o = []
+    · simp only [List.find?_cons, hoe, bne_self_eq_false, Bool.false_and]
+      exact hrec
+    · have := h r o (by simp) hoe
+      simp only [List.find?_cons, this]
+      rw [hrec]
+
+theorem select_congr (acc1 acc2 : SRange → Bytes → Bool) (rs : List SRange) (offers : List Bytes)
+    (h : ∀ r o, o ∈ offers → o ≠ [] → acc1 r o = acc2 r o) : select acc1 rs offers = select acc2 rs offers := by
+  unfold select
+  have := firstAcceptable_congr acc1 acc2 offers h
+  simp only [this]
+
+/-- `Accepts` (and `Format`'s negotiation) = the specification's `expected`, on offers whose media
+    type is not empty / does not start with `/` and whose parameter names are not repeated -/
+theorem accepts_media_eq_spec_partial (tab : Bytes → Option Qual) (mime : Bytes → Bytes) (es : List Elem) (offers : List Bytes)
+    (hwf : wf es = true) (hk1 : Known.K1 es = false) (hk2 : Known.K2 es = false)
+    (hoff : ∀ o ∈ offers, o ≠ [] → offerSane mime o = true ∧ offerParamsDistinct o) :
+    getOffer tab (acceptsOfferType mime) (render es) offers = expected mime .accept es offers := by
+  rw [getOffer_eq_spec_partial tab (acceptsOfferType mime) es offers hwf hk1 hk2
+    (fun o ho ps hne => acceptsOfferType_empty mime o ps (hoff o ho hne).1)]
+  unfold expectedWith expected
+  cases offers with
+  | nil => rfl
+  | cons o0 os =>
+    simp only
+    split
+    · rfl
+    · exact select_congr _ _ _ _ (fun r o ho hne => acceptsOfferType_eq_accMedia mime r o (hoff o ho hne).2)
 
 -- the witnesses of the two known findings: the full statement fails there
 theorem getOffer_eq_spec_witness_K1 :
@@ -363,6 +401,56 @@ theorem format_406_no_handler (tab : Bytes → Option Qual) (mime : Bytes → By
     all_goals first | (simp at h; done) | skip
     all_goals (repeat' split) <;> simp_all
 
+/-- `Format` on a header of the grammar dispatches as the property demands: the handler whose media
+    type is the negotiated one (and that Content-Type), else a "default" handler, else 406 -/
+theorem format_meets_spec_partial (tab : Bytes → Option Qual) (mime : Bytes → Bytes) (es : List Elem) (types : List Bytes)
+    (hwf : wf es = true) (hk1 : Known.K1 es = false) (hk2 : Known.K2 es = false)
+    (hoff : ∀ o ∈ types, o ≠ [] → offerSane mime o = true ∧ offerParamsDistinct o) :
+    specViolationFormat mime (some es) (render es) types (some (format tab mime (render es) types)) = none := by
+  have hoff' : ∀ o ∈ types.filter (· != sDefault), o ≠ [] → offerSane mime o = true ∧ offerParamsDistinct o :=
+    fun o ho hne => hoff o (List.mem_filter.1 ho).1 hne
+  have hsel := accepts_media_eq_spec_partial tab mime es (types.filter (· != sDefault)) hwf hk1 hk2 hoff'
+  unfold specViolationFormat format
+  cases types with
+  | nil => simp
+  | cons t0 ts =>
+    simp only
+    by_cases hh : render es = []
+    · simp [hh]
+    · have hh' : (render es == []) = false := by simpa using hh
+      simp only [hh', Bool.false_eq_true, if_false, hsel]
+      have hcons : (t0 :: ts == ([] : List Bytes)) = false := by simp
+      simp only [hcons, Bool.false_eq_true, if_false]
+      by_cases ha : expected mime .accept es (List.filter (· != sDefault) (t0 :: ts)) = []
+      · simp only [ha, beq_self_eq_true, if_true]
+        cases hl : lastIndexOf (t0 :: ts) sDefault with
+        | none =>
+          have hnot := (lastIndexOf_none_iff _ _).1 hl
+          have : (t0 :: ts).contains sDefault = false := by
+            rw [Bool.eq_false_iff]; intro hc; exact hnot (List.contains_iff_mem.1 hc)
+          simp only [List.contains_cons, List.mem_cons, not_or] at hnot ⊢
+          simp [hnot.1, hnot.2]
+        | some i =>
+          have hg := lastIndexOf_get hl
+          simp [hg]
+      · have ha' : (expected mime .accept es (List.filter (· != sDefault) (t0 :: ts)) == []) = false := by simpa using ha
+        simp only [ha', Bool.false_eq_true, if_false]
+        -- the negotiated type is one of the handlers' types
+        have hmem : expected mime .accept es (List.filter (· != sDefault) (t0 :: ts)) ∈ t0 :: ts := by
+          rw [← hsel]
+          rcases result_is_offer_or_empty tab (acceptsOfferType mime) (render es) (List.filter (· != sDefault) (t0 :: ts)) with h | h
+          · rw [hsel] at h; exact absurd h ha
+          · exact (List.mem_filter.1 h).1
+        cases hf : List.findIdx? (· == expected mime .accept es (List.filter (· != sDefault) (t0 :: ts))) (t0 :: ts) with
+        | none =>
+          exfalso
+          rw [List.findIdx?_eq_none_iff] at hf
+          have := hf _ hmem
+          simp at this
+        | some i =>
+          obtain ⟨hlt, hi, _⟩ := List.findIdx?_eq_some_iff_getElem.1 hf
+          simp only [beq_iff_eq] at hi
+          simp [List.getElem?_eq_getElem hlt, hi, ha, hf]
 -- non-vacuity of `format_406`
 example : (format (fun _ => none) (fun _ => []) (b "image/png") [b "text/html", b "application/json"]).status = 406 := by decide
 example : (format (fun _ => none) (fun _ => []) (b "image/png") [b "text/html", b "default"]).status = 200 := by decide
